@@ -11,6 +11,7 @@ package main
 //	log <k> <msg>               loggers[k].Info(msg)                                -> ok
 //	logn <k> <count> <start>    loggers[k].Info("m<start>") ... "m<start+count-1>"  -> ok
 //	getlogs                     messages of MemLogger.GetLogs(), in slice order     -> ok <count> <m,m,...|->
+//	reread <k>                  the entries the k-th getlogs returned, read again now       -> ok <count> <m,m,...|->
 //	writelogs                   messages parsed from MemLogger.WriteLogs output     -> ok <count> <m,m,...|->
 //	conc <pre> <G> <perG> <readers>   (suite c20conc) see runC20Conc                 -> ok <final count>
 //
@@ -69,6 +70,8 @@ func runC20(ops []string) CaseResult {
 	loggers := []*zap.Logger{root}
 	var written []string // chronological
 	var snaps []c20Snap
+	var snapLists [][]*observer.LoggedEntry // what each getlogs returned
+	var snapMsgs [][]string                 // and what it read as at that time
 	derivedWrites, rootWrites := 0, 0
 	fail := func(i int, f string, a ...interface{}) {
 		if len(res.Fails) < 10 {
@@ -126,6 +129,11 @@ func runC20(ops []string) CaseResult {
 			res.Outs = append(res.Outs, "bad-op")
 			continue
 		}
+		if f[0] == "reread" && (len(f) != 2 || atoi(f[1]) < 0 || atoi(f[1]) >= len(snapLists)) {
+			res.Fails = append(res.Fails, "harness: malformed case, no snapshot "+op)
+			res.Outs = append(res.Outs, "bad-op")
+			continue
+		}
 		out := guard(func() string {
 			switch f[0] {
 			case "cap":
@@ -154,6 +162,8 @@ func runC20(ops []string) CaseResult {
 				got := c20Msgs(es)
 				checkLogs(i, got)
 				checkSnaps(i)
+				snapLists = append(snapLists, es)
+				snapMsgs = append(snapMsgs, got)
 				if len(snaps) < 1<<16 {
 					for j, e := range es {
 						if e != nil {
@@ -162,6 +172,18 @@ func runC20(ops []string) CaseResult {
 					}
 				}
 				return c20Fmt(got)
+			case "reread":
+				k := atoi(f[1])
+				now := c20Msgs(snapLists[k])
+				if !c19EqStrs(now, snapMsgs[k]) {
+					d := 0
+					for d < len(now) && now[d] == snapMsgs[k][d] {
+						d++
+					}
+					fail(i, "the entries returned by getlogs #%d read differently now: position %d was %q, is %q (entries handed out must not change)", k, d, snapMsgs[k][d], now[d])
+				}
+				tags["reread"] = true
+				return c20Fmt(now)
 			case "writelogs":
 				var buf bytes.Buffer
 				ml.WriteLogs(&buf, logging.IncludeMessage)
@@ -211,6 +233,7 @@ func genC20(r *rand.Rand, tier string, idx int) []string {
 	}
 	nlog := 1
 	next := 0
+	reads := 0
 	pick := func() int {
 		if r.Intn(3) == 0 {
 			return 0
@@ -230,9 +253,13 @@ func genC20(r *rand.Rand, tier string, idx int) []string {
 				next++
 			default:
 				ops = append(ops, "getlogs")
+				reads++
 			}
 		}
 		ops = append(ops, "getlogs", "writelogs")
+		for k := 0; k < reads+1 && k < 3; k++ {
+			ops = append(ops, fmt.Sprintf("reread %d", r.Intn(reads+1)))
+		}
 		return ops
 	}
 	// long history: total below, at, just above and far above the capacity, written in chunks through the
@@ -247,6 +274,10 @@ func genC20(r *rand.Rand, tier string, idx int) []string {
 			nlog++
 		case x < 3:
 			ops = append(ops, "getlogs")
+			reads++
+			if reads > 1 && r.Intn(2) == 0 {
+				ops = append(ops, fmt.Sprintf("reread %d", r.Intn(reads-1)))
+			}
 		default:
 			var cnt int
 			switch r.Intn(4) {
@@ -270,10 +301,15 @@ func genC20(r *rand.Rand, tier string, idx int) []string {
 			next += cnt
 			if next == c || next == c+1 {
 				ops = append(ops, "getlogs")
+				reads++
 			}
 		}
 	}
 	ops = append(ops, "getlogs")
+	// the snapshots taken on the way (the first ones are long overwritten in the ring) must still read the same
+	for k := 0; k < reads && k < 3; k++ {
+		ops = append(ops, fmt.Sprintf("reread %d", k))
+	}
 	if r.Intn(4) == 0 {
 		ops = append(ops, "writelogs")
 	}
